@@ -102,7 +102,7 @@ func init() {
 		return showBool(unicode.IsPrint(r) && strconv.IsPrint(r)) + " " + showBool(unicode.IsSpace(r))
 	}
 	register(&Prop{ID: "C20", Gen: genC20, Oracle: oracleC20,
-		Rule: "grammar-directed go.mod/go.work files (all directive kinds, single-line and block forms, quoting, comments before/suffix/after/in blocks/before ')', blank lines, CRLF, BOM, unknown verbs and blocks), one-byte mutations of those, token soup, malformed byte streams (unterminated strings/blocks, /* */, stray brackets, NUL, invalid UTF-8, Unicode spaces), long lines; leaf ops for quoting/regexps/TrimSpace; non-trivial = parses to >= 2 statements or fails past the first token; distinct by op line"})
+		Rule: "grammar-directed go.mod/go.work files (all directive kinds, single-line and block forms, quoting, comments before/suffix/after/in blocks/before ')', blank lines, CRLF, BOM, unknown verbs and blocks), one-byte mutations of those, token soup, malformed byte streams (unterminated strings/blocks, /* */, stray brackets, NUL, invalid UTF-8, Unicode spaces), long lines, end-of-input family (context x last-line shape x UTF-8 width of the payload x terminator, swept and behind randomly truncated files), block lines whose first token begins with a directive keyword (x suffix-comment layout x module directive before/after, swept for `module`, random for all keywords); leaf ops for quoting/regexps/TrimSpace; non-trivial = parses to >= 2 statements or fails past the first token; distinct by op line"})
 }
 
 // ---- version fixer stub (mirrors ModVerif.Modfile.fixStub)
@@ -981,16 +981,270 @@ func c20LeafOps(g *Gen) {
 	}
 }
 
+// ---- input class "end of input" (added for C20 only; C02 keeps using c20GenInput / c20Boundary)
+//
+// Why it was missing: the grammar-directed files end with a newline (6% lose only the final "\n" of a
+// complete file), and unterminated blocks / strings arose only from one-byte mutations, so the state
+// "the input ends in the middle of a line, inside an open block, after non-ASCII text" was practically
+// never produced. That state is the only one in which the lexer's position AFTER the last token is
+// observable (through the end-of-input errors: unterminated block, EOF in string, …), i.e. the only
+// place where the column bookkeeping of the last line is checked by the position clause.
+//
+// The class: (context before the last line) × (shape of the last line) × (payload by UTF-8 width:
+// ASCII, 2-, 3-, 4-byte runes, invalid bytes, mixed, empty) × (line terminator: none, LF, CRLF, lone CR).
+// It is swept exhaustively (small scope) and also sampled at random behind a truncated random file.
+
+var c20EOFContexts = []string{
+	"",
+	"module example.com/m\n\ngo 1.21\n\n",
+	"module example.com/m\n\nrequire (\n\texample.com/x v1.0.0\n",
+	"go 1.21\nuse (\n",
+}
+
+// payloads by encoded width of their runes
+var c20EOFPayloads = []string{"abc def", "à suivre", "続く", "\U0001F600 ok \U00010348", "\xff\xfe x", "a é日\U0001F600z", ""}
+
+// shapes of the last line; %s is the payload
+var c20EOFShapes = []string{
+	"// %s",                      // whole-line comment
+	"\t// %s",                    // indented whole-line comment
+	"example.com/y v1.2.3 // %s", // tokens and a suffix comment
+	"\t./a //%s",                 // glued suffix comment
+	"tok %s",                     // bare tokens (non-ASCII identifiers, bad characters)
+	"x \"%s",                     // unterminated interpreted string
+	"x `%s",                      // unterminated raw string
+	") // %s",                    // closing parenthesis and comment
+	"y ( // %s",                  // a block opened on the last line
+	"x \"%s\" z",                 // quoted token followed by another token
+}
+
+var c20EOFTerminators = []string{"", "\n", "\r\n", "\r"}
+
+func c20EOFLastLine(shape, payload string) string { return strings.Replace(shape, "%s", payload, 1) }
+
+// c20EOFSweep calls f on every member of the exhaustive small-scope family.
+func c20EOFSweep(f func(s string)) {
+	for _, ctx := range c20EOFContexts {
+		for _, shape := range c20EOFShapes {
+			for _, p := range c20EOFPayloads {
+				for _, t := range c20EOFTerminators {
+					f(ctx + c20EOFLastLine(shape, p) + t)
+				}
+			}
+		}
+	}
+}
+
+// c20Truncated: a random grammar-directed file cut at a random byte (possibly inside a rune, a string,
+// a comment or a block), optionally continued by a last line of the end-of-input family.
+func c20Truncated(r *Rand) string {
+	kind := "mod"
+	if r.Chance(25) {
+		kind = "work"
+	}
+	s := c20GenFile(r, kind)
+	switch r.Intn(3) {
+	case 0: // anywhere
+		s = s[:r.Intn(len(s)+1)]
+	case 1: // after a line
+		if i := strings.LastIndexByte(s[:r.Intn(len(s)+1)], '\n'); i >= 0 {
+			s = s[:i+1]
+		} else {
+			s = ""
+		}
+	default: // just after an opening parenthesis line, if there is one
+		if i := strings.Index(s, "(\n"); i >= 0 {
+			j := i + 2
+			// keep a random number of the block's lines
+			for r.Chance(50) {
+				k := strings.IndexByte(s[j:], '\n')
+				if k < 0 || strings.HasPrefix(strings.TrimLeft(s[j:], " \t"), ")") {
+					break
+				}
+				j += k + 1
+			}
+			s = s[:j]
+		}
+	}
+	if r.Chance(70) {
+		s += c20EOFLastLine(r.Pick(c20EOFShapes), r.Pick(c20EOFPayloads)) + r.Pick(c20EOFTerminators)
+	}
+	return s
+}
+
+// ---- input class "block line whose first token merely BEGINS with a directive keyword"
+//
+// Why it was missing: the atoms of the generated lines (c20Paths, godebug keys, …) never begin with a
+// keyword, the module directive is the first statement of 85% of the generated files, and the only
+// keyword-prefixed words were the unknown top-level verbs (`modulex`), which make the strict parser
+// reject the file, so the ModulePath clause did not apply. ModulePath is a line scanner that does not know
+// about blocks and looks for the text `module` at the start of a line; the strict parser looks at the
+// statement's first TOKEN. Where both must agree although the line starts with the keyword's letters is
+// exactly: a line inside a require/exclude/replace/tool/godebug block whose first token is longer than
+// the keyword (with every layout of suffix comment after it), before or after the real module directive.
+//
+// The class: (block verb and line shape) × (keyword-prefixed atom) × (suffix comment layout) × (module
+// directive before / after the block); indentation, CRLF and the module directive's own layout vary
+// with the case number. Exhaustive for the keyword `module` (the one ModulePath scans for), random for
+// the other keywords.
+
+var c20KeywordTails = []string{"s.example.com/kit", ".example.com/x", "cache/y", "-x.io/a", "_x/a", "x", "1.io/v"}
+
+// c20BlockLineShapes: verb + line template, %s is the atom (godebug lines are keys: atom "=1" form)
+var c20BlockLineShapes = []struct{ verb, line string }{
+	{"require", "%s v1.2.3"},
+	{"exclude", "%s v1.2.3"},
+	{"replace", "%s => ./local"},
+	{"replace", "%s v1.0.0 => example.com/r v1.0.1"},
+	{"tool", "%s"},
+	{"godebug", "%s=1"},
+}
+
+var c20SuffixLayouts = []string{"", " // indirect", "// glued", "\t//x", "  //", " // a // b", " // é module x"}
+
+var c20ModuleDirectives = []string{"module example.com/app\n", "module \"example.com/app\" // the module\n", "module\texample.com/app\r\n", "  module `example.com/app`  \n",
+	"// Deprecated: no\nmodule example.com/app // c\n"}
+
+func c20KeywordAtom(verb, kw, tail string) string {
+	if verb == "godebug" {
+		// a godebug key must not contain '/' … keep the letters only
+		return kw + strings.Map(func(c rune) rune {
+			if c == '/' || c == '.' {
+				return -1
+			}
+			return c
+		}, tail)
+	}
+	return kw + tail
+}
+
+// c20KeywordFile builds one member of the family; k varies the secondary layout choices.
+func c20KeywordFile(verb, lineT, atom, suffix string, moduleFirst bool, k int) string {
+	indent := []string{"\t", "", "  ", "\t\t"}[k%4]
+	line := indent + strings.Replace(lineT, "%s", atom, 1) + suffix + "\n"
+	other := map[string]string{"require": "\texample.com/other v1.0.0\n", "exclude": "\texample.com/other v1.0.0\n", "replace": "\texample.com/other => ../o\n",
+		"tool": "\texample.com/other/cmd\n", "godebug": "\tpanicnil=1\n"}[verb]
+	block := verb + " (\n"
+	switch (k / 4) % 3 {
+	case 0:
+		block += line + other
+	case 1:
+		block += other + line
+	default:
+		block += line
+	}
+	block += ")\n"
+	mod := c20ModuleDirectives[(k/12)%len(c20ModuleDirectives)]
+	var s string
+	if moduleFirst {
+		s = mod + "\ngo 1.21\n\n" + block
+	} else {
+		s = block + "\n" + mod + "\ngo 1.21\n"
+	}
+	if (k/60)%4 == 3 {
+		s = strings.ReplaceAll(strings.ReplaceAll(s, "\r\n", "\n"), "\n", "\r\n")
+	}
+	return s
+}
+
+// c20KeywordSweep: exhaustive over shapes × tails × suffix layouts × position for the keyword `module`.
+func c20KeywordSweep(f func(s string)) {
+	k := 0
+	for _, sh := range c20BlockLineShapes {
+		for _, tail := range c20KeywordTails {
+			for _, suf := range c20SuffixLayouts {
+				for _, first := range []bool{false, true} {
+					f(c20KeywordFile(sh.verb, sh.line, c20KeywordAtom(sh.verb, "module", tail), suf, first, k))
+					k += 7 // co-prime with the layout cycle lengths: all secondary layouts are visited
+				}
+			}
+		}
+	}
+}
+
+// c20KeywordRandom: the same family with any keyword, several blocks, statements in random order.
+func c20KeywordRandom(r *Rand) string {
+	chunks := []string{r.Pick(c20ModuleDirectives)}
+	if r.Chance(70) {
+		chunks = append(chunks, "go 1.21\n")
+	}
+	for n := 1 + r.Intn(3); n > 0; n-- {
+		sh := c20BlockLineShapes[r.Intn(len(c20BlockLineShapes))]
+		var b strings.Builder
+		b.WriteString(sh.verb + " (" + c20Suffix(r, 10) + "\n")
+		for m := 1 + r.Intn(3); m > 0; m-- {
+			kw := "module"
+			if r.Chance(40) {
+				kw = r.Pick(c20AllVerbs)
+			}
+			atom := c20KeywordAtom(sh.verb, kw, r.Pick(c20KeywordTails))
+			if r.Chance(20) {
+				atom = r.Pick(c20Paths[:9])
+				if sh.verb == "godebug" {
+					atom = "panicnil"
+				}
+			}
+			b.WriteString(r.Pick([]string{"\t", "\t", "", "  "}) + strings.Replace(sh.line, "%s", atom, 1) + r.Pick(c20SuffixLayouts) + "\n")
+		}
+		b.WriteString(")\n")
+		chunks = append(chunks, b.String())
+	}
+	for i := len(chunks) - 1; i > 0; i-- { // random order: the module directive is anywhere
+		j := r.Intn(i + 1)
+		chunks[i], chunks[j] = chunks[j], chunks[i]
+	}
+	s := strings.Join(chunks, r.Pick([]string{"", "\n"}))
+	if r.Chance(10) {
+		s = strings.ReplaceAll(strings.ReplaceAll(s, "\r\n", "\n"), "\n", "\r\n")
+	}
+	if r.Chance(10) {
+		s = strings.TrimSuffix(s, "\n")
+	}
+	return s
+}
+
+// c20GenInputC20: C20's own random stream = the shared families plus the two classes above.
+func c20GenInputC20(r *Rand) (string, string) {
+	switch k := r.Intn(100); {
+	case k < 5:
+		return c20Truncated(r), "truncated"
+	case k < 9:
+		return c20KeywordRandom(r), "keyword-prefix"
+	}
+	return c20GenInput(r)
+}
+
 func genC20(g *Gen, n int) {
 	for _, s := range c20Boundary {
 		c20EmitOps(g, s, "boundary", true)
 	}
+	// end-of-input family: the syntax layer on every member, one directive-layer entry point in turn
+	i := 0
+	c20EOFSweep(func(s string) {
+		h := hx(s)
+		nt := c20Nontrivial(s)
+		c20Emit(g, "modfile.parsesyntax "+h, nt, "eof-sweep")
+		if i%2 == 0 {
+			c20Emit(g, []string{"modfile.parse nofix ", "modfile.parsework nofix ", "modfile.parselax nofix "}[(i/2)%3]+h, nt, "eof-sweep")
+		}
+		i++
+	})
+	// keyword-prefix family: the line scanner on every member, the strict parser on every other one
+	i = 0
+	c20KeywordSweep(func(s string) {
+		h := hx(s)
+		c20Emit(g, "modfile.modulepath "+h, true, "keyword-sweep")
+		if i%2 == 0 {
+			c20Emit(g, "modfile.parse nofix "+h, true, "keyword-sweep")
+		}
+		i++
+	})
 	for g.st.Ops < n {
 		if g.Chance(12) {
 			c20LeafOps(g)
 			continue
 		}
-		s, tag := c20GenInput(g.Rand)
+		s, tag := c20GenInputC20(g.Rand)
 		c20EmitOps(g, s, tag, false)
 	}
 }
@@ -1387,12 +1641,15 @@ func oracleC20(g *Gen, n int) {
 		c20OracleInput(g, s, "boundary")
 	}
 	c20OracleKnownVerbBlocks(g)
+	// the two exhaustive small-scope families (see their definitions for why they exist)
+	c20EOFSweep(func(s string) { c20OracleInput(g, s, "eof-sweep") })
+	c20KeywordSweep(func(s string) { c20OracleInput(g, s, "keyword-sweep") })
 	for i := 0; i < n; i++ {
 		if g.Chance(10) {
 			c20OracleLaxIgnores(g)
 			continue
 		}
-		s, tag := c20GenInput(g.Rand)
+		s, tag := c20GenInputC20(g.Rand)
 		c20OracleInput(g, s, tag)
 	}
 }
